@@ -35,7 +35,10 @@ def main():
             for k in ("axioms", "type_in_type", "unsafe_fixpoints", "assumed_positivity"):
                 if summ.get(k) not in ("<none>", None):
                     run.trusted.add(f"coqchk {k}: {summ.get(k)}")
-            if not ok2:
+            if ok2 is None:
+                run.assumptions.append("coqchk (independent re-check of the hand-written files) did not finish within "
+                                       "its time limit on this run; the files were accepted by coqc")
+            elif not ok2:
                 run.violation({"broken": "coqchk rejects the compiled hand-written development", "output": tail}, False)
         return mod.main(run)
     except Exception:
